@@ -581,12 +581,12 @@ func scenarios(tier string) []*mcrt.Scenario {
 		}
 		return b
 	}
-	for _, n := range []int{2047, 2048, 2049, 4096} {
+	for _, n := range []int{2047, 2048, 2049, 4096, 70001} {
 		for _, sn := range []int{0, 2048} {
 			cdata, sdata := build(n), bytes.Repeat([]byte{0x5A}, sn)
 			n, sn := n, sn
 			scs = append(scs, &mcrt.Scenario{
-				Name: fmt.Sprintf("burst client=%dB server=%dB", n, sn), DefaultOnly: true, Horizon: 2000000,
+				Name: fmt.Sprintf("burst client=%dB server=%dB", n, sn), DefaultOnly: true, Horizon: 8000000,
 				Body: func(x *mcrt.X) {
 					obs := &obsT{toServer: &hsink.Sink{Name: "upstream"}, toClient: &hsink.Sink{Name: "client"}}
 					x.Data = obs
